@@ -29,8 +29,16 @@ def cache_options(c):
     return CacheOptions(True, c["idx"], c["blk"], c["ways"], c.get("type", "wb"), c.get("repl", "lru"), c.get("pen", 0))
 
 
-def new_sim(mode="single", detect=True, dcache=None, icache=None):
+def new_sim(mode="single", detect=True, dcache=None, icache=None, state_first=False):
     from architecture_simulator.simulation.riscv_simulation import RiscvSimulation
+    if state_first:
+        # two-step construction (as the repository's tests do it): the options are given to the architectural state, the
+        # simulation wraps that state
+        from architecture_simulator.uarch.riscv.riscv_architectural_state import RiscvArchitecturalState
+        m = "five_stage_pipeline" if mode == "five" else "single_stage_pipeline"
+        state = RiscvArchitecturalState(pipeline_mode=m, detect_data_hazards=detect, data_cache_options=cache_options(dcache),
+                                        instruction_cache_options=cache_options(icache))
+        return RiscvSimulation(state=state, mode=m)
     return RiscvSimulation(mode="five_stage_pipeline" if mode == "five" else "single_stage_pipeline",
                            detect_data_hazards=detect, data_cache=cache_options(dcache),
                            instruction_cache=cache_options(icache))
